@@ -16,6 +16,10 @@ def cases(rnd, n):
              ':nth-child(odd of', 'a|', '|', '*|', 'a||b', '[a|=]', '[a~=\'x]', ':not()', ':is()', ':has()', ':where(,)',
              ':has(> )', ':has(a >)', ':host(a', ':current(a,)', 'a /* x', 'a */', ':-soup-contains("a', ":-soup-contains('a\\')",
              'p:foo\\{bar\\}', 'a:hover\\{', 'p:--tpl\\{name\\}', 'div:nth\\7b 1\\7d ', 'p:x\\%s', 'p:x\\{0\\}', ':\\{\\}(', '::\\{', '@\\{x']
+    # attribute values are literals: whatever characters they hold (regular-expression metacharacters included), with every operator / flag
+    for v_ in ('a(', 'x)', '[en', '*', '+1', '\\\\', '.', '^$', 'a|b', '{2}', '?', '(?i)', '\\d', 'a[', '(?P<x>', '$', '\\Z', '(', ')', '+', 'a\\'):
+        for op_ in ('=', '|=', '~=', '^=', '$=', '*=', '!='):
+            fixed.append(f'[a{op_}"{v_}"' + rnd.choice([']', ' i]', ' s]', ']']))
     for f in fixed:
         out.append((f, None))
         out.append((f, {':--c': f}))
